@@ -144,7 +144,7 @@ def worker(args):
     tier = os.environ.get("VERIF_C10_TIER", "quick")
     fails, sample, sigs = [], None, set()
     stats = {"cases": 0, "fits": 0, "children": 0}
-    for _ in range(max(1, n // 4)):
+    for _ in range(max(1, n // (4 if tier == "quick" else 8))):
         r = c01.gen(rng)
         r["ds"] = fitgen.gen_dataset(rng, target=r["meta"]["target"], kinds=rng.sample(["cont", "disc", "ord", "cat", "cont", "cat"], rng.randint(2, 4)))
         if not r["ds"]["ok_target"]:
